@@ -103,6 +103,54 @@ const POOL: [ExchangeId; 8] = [
     ExchangeId::Mock,
 ];
 
+/// every exchange id the library knows (sibling venues of one operator sit next to each other)
+const ALL_EXCHANGES: [ExchangeId; 44] = [
+    ExchangeId::Other,
+    ExchangeId::Simulated,
+    ExchangeId::Mock,
+    ExchangeId::BinanceFuturesCoin,
+    ExchangeId::BinanceFuturesUsd,
+    ExchangeId::BinanceOptions,
+    ExchangeId::BinancePortfolioMargin,
+    ExchangeId::BinanceSpot,
+    ExchangeId::BinanceUs,
+    ExchangeId::Bitazza,
+    ExchangeId::Bitfinex,
+    ExchangeId::Bitflyer,
+    ExchangeId::Bitget,
+    ExchangeId::Bitmart,
+    ExchangeId::BitmartFuturesUsd,
+    ExchangeId::Bitmex,
+    ExchangeId::Bitso,
+    ExchangeId::Bitstamp,
+    ExchangeId::Bitvavo,
+    ExchangeId::Bithumb,
+    ExchangeId::BybitPerpetualsUsd,
+    ExchangeId::BybitSpot,
+    ExchangeId::Cexio,
+    ExchangeId::Coinbase,
+    ExchangeId::CoinbaseInternational,
+    ExchangeId::Cryptocom,
+    ExchangeId::Deribit,
+    ExchangeId::GateioFuturesBtc,
+    ExchangeId::GateioFuturesUsd,
+    ExchangeId::GateioOptions,
+    ExchangeId::GateioPerpetualsBtc,
+    ExchangeId::GateioPerpetualsUsd,
+    ExchangeId::GateioSpot,
+    ExchangeId::Gemini,
+    ExchangeId::Hitbtc,
+    ExchangeId::Htx,
+    ExchangeId::Kraken,
+    ExchangeId::Kucoin,
+    ExchangeId::Liquid,
+    ExchangeId::Mexc,
+    ExchangeId::Okx,
+    ExchangeId::Poloniex,
+    ExchangeId::BinanceSpot,
+    ExchangeId::Okx,
+];
+
 const ASSETS: [&str; 12] =
     ["btc", "eth", "usdt", "usd", "sol", "usdc", "xrp", "1000shib", "eur", "btcb", "dai", "bnb"];
 
@@ -163,6 +211,11 @@ struct Def {
     quote_in_base: bool,
     kind: KindDef,
     spec: Option<SpecDef>,
+    /// the internal name was produced by the library's documented default,
+    /// `InstrumentNameInternal::new_from_exchange(exchange, venue symbol)` ("unique across exchanges"),
+    /// and the venue symbol is the same on every exchange that lists the pair
+    #[serde(default)]
+    default_named: bool,
 }
 
 #[derive(Debug, Clone, Serialize, Deserialize)]
@@ -306,7 +359,8 @@ impl Model {
 /// Is the collection inside the documented domain? (guards replayed / shrunk input)
 fn well_formed(defs: &[Def]) -> Result<(), String> {
     let mut by_int: BTreeMap<&str, &Def> = BTreeMap::new();
-    let mut by_exch: BTreeMap<&str, &Def> = BTreeMap::new();
+    // a venue symbol is unique on ITS exchange; sibling venues list the same symbols
+    let mut by_exch: BTreeMap<(ExchangeId, &str), &Def> = BTreeMap::new();
     if defs.is_empty() {
         return Err("empty collection".into());
     }
@@ -327,9 +381,9 @@ fn well_formed(defs: &[Def]) -> Result<(), String> {
                 return Err(format!("internal name {} used by two different definitions", d.name_internal));
             }
         }
-        if let Some(prev) = by_exch.insert(&d.name_exchange, d) {
+        if let Some(prev) = by_exch.insert((d.exchange, d.name_exchange.as_str()), d) {
             if prev != d {
-                return Err(format!("exchange name {} used by two different definitions", d.name_exchange));
+                return Err(format!("exchange name {} used by two different definitions on {:?}", d.name_exchange, d.exchange));
             }
         }
     }
@@ -425,6 +479,8 @@ fn recover(ii: &IndexedInstruments, x: &Indexed, obs: &mut Obs) -> Result<Def, F
         quote_in_base: x.quote == InstrumentQuoteAsset::UnderlyingBase,
         kind,
         spec,
+        // not recoverable from the index; compared nowhere (see `same_definition`)
+        default_named: false,
     })
 }
 
@@ -549,6 +605,7 @@ fn check_indexed(ii: &IndexedInstruments, m: &Model, light: bool, rng: &mut Rng,
                 ),
             ));
         }
+        let got = Def { default_named: want.default_named, ..got };
         if got != *want {
             return Err(("instrument_definition_changed", format!("defined {want:?} read back {got:?}")));
         }
@@ -904,12 +961,42 @@ fn check_exec(ii: &IndexedInstruments, m: &Model, exec_seed: u64, obs: &mut Obs)
 // ------------------------------------------------------------------------------------------------
 // One case under the monitor
 
+/// Every second definition (by position in the insertion order) is not built in code but LOADED: the same
+/// definition as JSON (as a configuration file would carry it) with every internal name spelled in upper
+/// case - internal names are documented to be lower-cased on construction, so it is the same definition.
+fn to_instrument_at(d: &Def, pos: usize) -> Instrument<ExchangeId, Asset> {
+    let ins = to_instrument(d);
+    if pos % 2 == 0 {
+        return ins;
+    }
+    fn upper(v: &mut serde_json::Value) {
+        match v {
+            serde_json::Value::Object(m) => {
+                for (k, x) in m.iter_mut() {
+                    if k == "name_internal" {
+                        if let serde_json::Value::String(s) = x {
+                            *s = s.to_uppercase();
+                        }
+                    } else {
+                        upper(x);
+                    }
+                }
+            }
+            serde_json::Value::Array(a) => a.iter_mut().for_each(upper),
+            _ => {}
+        }
+    }
+    let mut v = serde_json::to_value(&ins).unwrap_or_else(|e| panic!("instrument definition does not serialise: {e}"));
+    upper(&mut v);
+    serde_json::from_value(v).unwrap_or_else(|e| panic!("instrument definition does not load from its own JSON: {e}"))
+}
+
 fn build_new(defs: &[Def], order: &[usize]) -> Result<IndexedInstruments, String> {
-    catch(|| IndexedInstruments::new(order.iter().map(|&i| to_instrument(&defs[i]))))
+    catch(|| IndexedInstruments::new(order.iter().enumerate().map(|(pos, &i)| to_instrument_at(&defs[i], pos))))
 }
 
 fn build_builder(defs: &[Def], order: &[usize]) -> Result<IndexedInstruments, String> {
-    catch(|| order.iter().fold(IndexedInstruments::builder(), |b, &i| b.add_instrument(to_instrument(&defs[i]))).build())
+    catch(|| order.iter().enumerate().fold(IndexedInstruments::builder(), |b, (pos, &i)| b.add_instrument(to_instrument_at(&defs[i], pos))).build())
 }
 
 fn case_cells(case: &Case, m: &Model, obs: &mut Obs) {
@@ -953,6 +1040,10 @@ fn case_cells(case: &Case, m: &Model, obs: &mut Obs) {
 }
 
 fn run_case(case: &Case, obs: &mut Obs) -> Result<(), Fail> {
+    obs.checks += 1;
+    if case.defs.iter().any(|d| d.default_named) {
+        obs.cells.push("naming:library_default_internal_names");
+    }
     let m = Model::of(&case.defs);
     case_cells(case, &m, obs);
     let mut rng = Rng::new(case.balance_seed ^ 0x5151);
@@ -1028,7 +1119,26 @@ fn project(case: &Case, kept: &[usize]) -> Case {
     }
 }
 
+/// default-named instruments of DIFFERENT exchanges are different instruments: their default internal names
+/// ("unique across exchanges") must differ, otherwise every table keyed by the internal name merges them
+fn default_name_collision(defs: &[Def]) -> Option<String> {
+    for (a, da) in defs.iter().enumerate() {
+        for db in defs.iter().skip(a + 1) {
+            if da.default_named && db.default_named && da.exchange != db.exchange && da.name_internal == db.name_internal {
+                return Some(format!("{} on {:?} and {} on {:?} both get the default internal name {:?}", da.name_exchange, da.exchange, db.name_exchange, db.exchange, da.name_internal));
+            }
+        }
+    }
+    None
+}
+
 fn execute(case: &Case, report: &mut Report, label: &str) {
+    if let Some(detail) = default_name_collision(&case.defs) {
+        report.case(fnv1a(format!("{:?}", case.defs).as_bytes()), true);
+        let small: Vec<Def> = shrink(&case.defs, |cand| default_name_collision(cand).is_some());
+        report.violation("distinct_instruments_collapse_under_default_internal_names", default_name_collision(&small).unwrap_or(detail), json!({"source": label, "case": {"defs": small, "orders": [], "balance_seed": 0, "exec_seed": 0}}));
+        return;
+    }
     if let Err(why) = well_formed(&case.defs) {
         report.harness_errors.push(format!("{label}: case outside the documented domain, not judged: {why}"));
         return;
@@ -1089,9 +1199,22 @@ fn letters(rng: &mut Rng, n: usize) -> String {
 
 fn gen_case(rng: &mut Rng, small: bool) -> Case {
     let n_exch = if small { rng.range_u(1, 2) } else { *rng.pick(&[1, 2, 2, 3, 3, 4, 5]) };
-    let mut pool = POOL.to_vec();
-    rng.shuffle(&mut pool);
-    let exchanges: Vec<ExchangeId> = pool[..n_exch].to_vec();
+    // a third of the cases: venue symbols + the library's default internal names, over a run of NEIGHBOURING
+    // exchange ids out of all the library knows (sibling venues of one operator list the same symbols)
+    let default_named = rng.chance(1, 3);
+    let exchanges: Vec<ExchangeId> = if default_named {
+        let start = rng.usize_below(ALL_EXCHANGES.len() - 5);
+        let mut run: Vec<ExchangeId> = ALL_EXCHANGES[start..start + 5].to_vec();
+        run.dedup();
+        rng.shuffle(&mut run);
+        run.truncate(n_exch.max(2).min(run.len()));
+        run
+    } else {
+        let mut pool = POOL.to_vec();
+        rng.shuffle(&mut pool);
+        pool[..n_exch].to_vec()
+    };
+    let n_exch = exchanges.len();
     let spot_only: Vec<bool> = exchanges.iter().map(|_| rng.chance(1, 2)).collect();
 
     let mut names: Vec<&str> = ASSETS.to_vec();
@@ -1154,8 +1277,24 @@ fn gen_case(rng: &mut Rng, small: bool) -> Case {
         } else {
             None
         };
+        if default_named {
+            let kind_tag = match &kind {
+                KindDef::Spot => "",
+                KindDef::Perpetual { .. } => "-PERP",
+                KindDef::Future { .. } => "-FUT",
+                KindDef::Option { .. } => "-OPT",
+            };
+            let symbol = format!("{}_{}{kind_tag}", base.to_uppercase(), quote.to_uppercase());
+            if defs.iter().any(|d: &Def| d.exchange == ex && d.name_exchange == symbol) {
+                continue; // one exchange lists a symbol once
+            }
+            let name_internal = barter_instrument::instrument::name::InstrumentNameInternal::new_from_exchange(ex, symbol.as_str()).name().to_string();
+            defs.push(Def { exchange: ex, name_internal, name_exchange: symbol, base: base.to_string(), quote: quote.to_string(), quote_in_base: rng.chance(1, 5), kind, spec, default_named: true });
+            continue;
+        }
         defs.push(Def {
             exchange: ex,
+            default_named: false,
             // random leading letters decouple the name orders from the generation order; the uid
             // keeps both names unique across the whole collection
             name_internal: format!("{}{}_{}", letters(rng, 2), uid, ex.as_str()),
@@ -1166,6 +1305,11 @@ fn gen_case(rng: &mut Rng, small: bool) -> Case {
             kind,
             spec,
         });
+    }
+    if defs.is_empty() {
+        let ex = exchanges[0];
+        let name_internal = barter_instrument::instrument::name::InstrumentNameInternal::new_from_exchange(ex, "BTC_USDT").name().to_string();
+        defs.push(Def { exchange: ex, name_internal, name_exchange: "BTC_USDT".into(), base: "btc".into(), quote: "usdt".into(), quote_in_base: false, kind: KindDef::Spot, spec: None, default_named: true });
     }
     for _ in 0..n_dups {
         let d = defs[rng.usize_below(defs.len())].clone();
